@@ -1015,21 +1015,21 @@ Rust `Bytes` (at most `isize::MAX` bytes). With it no `Interp.step` faults (C25 
 never faults (C25 `insertCall_sat` / `insertCreate_sat`, on the memory `free_context` gives back: C11's
 `insertCallOutcome_mem`), `free_context` never fails. -/
 
-/-- the residual class that remains: the EOFCREATE action (an artefact of the legacy-only model) and the fuel -/
-theorem resid3_iff (e : Err) :
-    Resid3 e ↔ (e = .panic "unsupported: Action.eofCreate (EOF frames are not modelled)" ∨ e = .outOfFuel) := Iff.rfl
+/-- the residual class that remains inside the loop: the fuel. Legacy code never hands out the EOFCREATE action
+(EOFCREATE stops at its `require_eof!`: `oa_eofcreateI`), so the EOFCREATE panic of the legacy-only model is gone too. -/
+theorem resid3_iff (e : Err) : Resid3 e ↔ e = .outOfFuel := Iff.rfl
 
-/-- COROLLARY (`transact_total`, with the interpreter-side panics excluded): on a well-formed world between two
-transactions whose code store and precompile oracle hold Rust `Bytes` (`WTyped`), for an environment whose calldata is
-a `Bytes` and whose gas limit is a `u64` below `u64::MAX` (`ETyped`), for every fork, with `2 · gas_limit + 2` units of
-fuel or more, `Evm.transact` returns a result on a well-formed world, or fails softly (`Soft`: code-store miss,
-precompile panic, oracle miss, fatal database error), or with the EOFCREATE action. NEVER `interpreter: …`,
-`insert outcome: …`, `free_context`, nor "out of fuel". -/
+/-- **`transact_total` on typed inputs** (= `FullStatement_transact_total_link` restricted to Rust values): on a
+well-formed world between two transactions whose code store and precompile oracle hold Rust `Bytes` (`WTyped`), for
+an environment whose calldata is a `Bytes` and whose gas limit is a `u64` below `u64::MAX` (`ETyped`), for every fork,
+with `2 · gas_limit + 2` units of fuel or more, `Evm.transact` returns a result on a well-formed world, or fails softly
+(`Soft`: code-store miss, precompile panic, oracle miss, fatal database error — none of them a panic of the journal,
+the frame machine or the interpreter). NEVER `interpreter: …`, `insert outcome: …`, `free_context`, the EOFCREATE
+action, nor "out of fuel": the whole residual class `Resid` of `transact_total_partial` is excluded. -/
 theorem transact_total_partial' (fuel : Nat) (w : World) (e : Evm.Env)
     (spec : Nat) (h : WOk w) (hw : WTyped w) (he : ETyped e) (hf : 2 * e.tx.gasLimit + 2 ≤ fuel) :
     (∃ o w', Evm.transact fuel w e spec = .ok (o, w') ∧ WOk w') ∨
-    (∃ err, Evm.transact fuel w e spec = .error err ∧
-      (Soft err ∨ err = .panic "unsupported: Action.eofCreate (EOF frames are not modelled)")) := by
+    (∃ err, Evm.transact fuel w e spec = .error err ∧ Soft err) := by
   have h1 := transact_tot3 pcOut outB inB fuel w e spec h hw he
   have h2 := transact_terminates' fuel w e spec hf
   cases hx : Evm.transact fuel w e spec with
@@ -1037,10 +1037,20 @@ theorem transact_total_partial' (fuel : Nat) (w : World) (e : Evm.Env)
   | error err =>
     rw [hx] at h1
     refine Or.inr ⟨err, rfl, ?_⟩
-    rcases h1 with h1 | h1 | h1
-    · exact Or.inl h1
-    · exact Or.inr h1
+    rcases h1 with h1 | h1
+    · exact h1
     · exact absurd (by rw [hx, h1]) h2
+
+/-- the hypotheses `WTyped` / `ETyped` say that the inputs are Rust values; what `FullStatement_transact_total_link`
+(no such hypothesis) would need on top: nothing for a `World` / `Env` that comes from the Rust types (`Bytes` is at
+most `isize::MAX` long, `gas_limit : u64`), except the single value `gas_limit = u64::MAX`, which the invariant
+"measure ≤ u64::MAX - 1" of the loop excludes (C25's `Inv` allows it only with an empty stack). -/
+theorem transact_total_typed (fuel : Nat) (w : World) (e : Evm.Env) (spec : Nat) (h : WOk w) (hw : WTyped w)
+    (he : ETyped e) (hf : 2 * e.tx.gasLimit + 2 ≤ fuel) :
+    (∃ r, Evm.transact fuel w e spec = .ok r) ∨ (∃ err, Evm.transact fuel w e spec = .error err ∧ Soft err) := by
+  rcases transact_total_partial' fuel w e spec h hw he hf with ⟨o, w', hx, _⟩ | hx
+  · exact Or.inl ⟨_, hx⟩
+  · exact Or.inr hx
 
 /-- non-vacuity: the sample world and environment are typed -/
 example : WTyped sampleWorld where
